@@ -23,6 +23,7 @@ type SolveResult struct {
 	Secs   float64
 	Output string // full stdout of the winning (or last) solver
 	Model  map[string]string
+	Values []string
 	Second string // thorough tier: a second solver's verdict ("" if not run / no answer)
 }
 
@@ -120,52 +121,68 @@ func Solve(file string, timeoutS int, seed int, wantSecond bool) SolveResult {
 		}
 	}
 	if res.Status == "sat" {
-		res.Model = parseModel(res.Output)
+		res.Values = parseModelValues(res.Output[strings.Index(res.Output, "sat")+3:])
 	}
 	return res
 }
 
-// parseModel parses "(get-value ...)" output: ((name value) (name (- 3)) ...). Only
-// simple name/value pairs are kept.
-func parseModel(out string) map[string]string {
-	m := map[string]string{}
+// parseModelValues parses "(get-value ...)" output positionally: the i-th result is the value
+// (last s-expression) of the i-th item.
+func parseModelValues(out string) []string {
 	i := strings.Index(out, "(")
 	if i < 0 {
-		return m
+		return nil
 	}
 	s := out[i:]
-	// tokenise into s-expressions at depth 2
+	var vals []string
 	depth := 0
-	start := -1
+	itemStart := -1
 	for k := 0; k < len(s); k++ {
 		switch s[k] {
 		case '(':
 			depth++
 			if depth == 2 {
-				start = k
+				itemStart = k
 			}
 		case ')':
-			if depth == 2 && start >= 0 {
-				item := s[start+1 : k]
-				item = strings.TrimSpace(item)
-				// name is up to first space unless it starts with '('
-				if !strings.HasPrefix(item, "(") {
-					if sp := strings.IndexAny(item, " \n\t"); sp > 0 {
-						name := item[:sp]
-						val := strings.TrimSpace(item[sp:])
-						val = strings.ReplaceAll(val, "(- ", "-")
-						if strings.HasPrefix(val, "-") {
-							val = strings.TrimSuffix(val, ")")
-						}
-						m[name] = val
-					}
-				}
-				start = -1
+			if depth == 2 && itemStart >= 0 {
+				item := s[itemStart+1 : k]
+				vals = append(vals, lastSexp(item))
+				itemStart = -1
 			}
 			depth--
+			if depth == 0 {
+				return vals
+			}
 		}
 	}
-	return m
+	return vals
+}
+
+func lastSexp(item string) string {
+	item = strings.TrimSpace(item)
+	if strings.HasSuffix(item, ")") {
+		depth := 0
+		for k := len(item) - 1; k >= 0; k-- {
+			if item[k] == ')' {
+				depth++
+			} else if item[k] == '(' {
+				depth--
+				if depth == 0 {
+					v := item[k:]
+					v = strings.Join(strings.Fields(v), " ")
+					if strings.HasPrefix(v, "(- ") {
+						v = "-" + strings.TrimSuffix(strings.TrimPrefix(v, "(- "), ")")
+					}
+					return v
+				}
+			}
+		}
+	}
+	if sp := strings.LastIndexAny(item, " \n\t"); sp >= 0 {
+		return item[sp+1:]
+	}
+	return item
 }
 
 // ---------------------------------------------------------------- incremental feasibility
@@ -245,22 +262,33 @@ func (f *Feas) Feasible(pc []*Term) bool {
 		printTerm(&sb, t, nil)
 		sb.WriteString(")\n")
 	}
-	sb.WriteString("(check-sat)\n(pop)\n")
+	marker := fmt.Sprintf("DONE%d", f.calls)
+	sb.WriteString("(check-sat)\n(pop)\n(echo \"" + marker + "\")\n")
+	if lf := os.Getenv("GOVC_FEASLOG"); lf != "" {
+		fh, _ := os.OpenFile(lf, os.O_APPEND|os.O_CREATE|os.O_WRONLY, 0o644)
+		fh.WriteString(sb.String())
+		fh.Close()
+	}
 	if _, err := io.WriteString(f.in, sb.String()); err != nil {
 		f.dead = true
 		return true
 	}
-	line, err := f.out.ReadString('\n')
-	if err != nil {
-		f.dead = true
-		return true
+	ans := ""
+	for {
+		line, err := f.out.ReadString('\n')
+		if err != nil {
+			f.dead = true
+			return true
+		}
+		line = strings.TrimSpace(line)
+		if line == marker || line == "\""+marker+"\"" {
+			break
+		}
+		if line == "sat" || line == "unsat" || line == "unknown" {
+			ans = line
+		}
 	}
-	line = strings.TrimSpace(line)
-	if strings.HasPrefix(line, "(error") {
-		// keep going; treat as feasible
-		return true
-	}
-	return line != "unsat"
+	return ans != "unsat"
 }
 
 func writeFile(path, content string) error {
